@@ -94,6 +94,26 @@ func (m *Machine) loadBytes(fr *frame, p BytePtr, T types.Type) Value {
 		}
 		return o
 	}
+	switch u := T.Underlying().(type) {
+	case *types.Struct:
+		st := make(Struct, u.NumFields())
+		for i := range st {
+			fp := BytePtr{obj: p.obj, off: m.tc.Bin(OpAdd, p.off, Const(64, uint64(m.fieldOffset(u, i))))}
+			if m.p.sizes.Sizeof(u.Field(i).Type()) == 0 {
+				st[i] = m.zero(u.Field(i).Type())
+				continue
+			}
+			st[i] = m.loadBytes(fr, fp, u.Field(i).Type())
+		}
+		return st
+	case *types.Array:
+		esz := uint64(m.p.sizes.Sizeof(u.Elem()))
+		arr := make(Array, u.Len())
+		for i := range arr {
+			arr[i] = m.loadBytes(fr, BytePtr{obj: p.obj, off: m.tc.Bin(OpAdd, p.off, Const(64, uint64(i)*esz))}, u.Elem())
+		}
+		return arr
+	}
 	panic(engineErr{fmt.Sprintf("load of %v through a byte pointer", T)})
 }
 
@@ -136,6 +156,25 @@ func (m *Machine) store(fr *frame, T types.Type, addr Value, v Value) {
 			src := v.(*ByteObj)
 			for i := 0; i < n; i++ {
 				p.obj.set(m, m.tc.Bin(OpAdd, p.off, Const(64, uint64(i))), src.get(m, Const(64, uint64(i))))
+			}
+			return
+		}
+		switch u := T.Underlying().(type) {
+		case *types.Struct:
+			sv := v.(Struct)
+			for i := range sv {
+				if m.p.sizes.Sizeof(u.Field(i).Type()) == 0 {
+					continue
+				}
+				fp := BytePtr{obj: p.obj, off: m.tc.Bin(OpAdd, p.off, Const(64, uint64(m.fieldOffset(u, i))))}
+				m.store(fr, u.Field(i).Type(), fp, sv[i])
+			}
+			return
+		case *types.Array:
+			av := v.(Array)
+			esz := uint64(m.p.sizes.Sizeof(u.Elem()))
+			for i := range av {
+				m.store(fr, u.Elem(), BytePtr{obj: p.obj, off: m.tc.Bin(OpAdd, p.off, Const(64, uint64(i)*esz))}, av[i])
 			}
 			return
 		}
@@ -725,6 +764,22 @@ func (m *Machine) boundsCheck(fr *frame, idx *Term, n *Term, what string) {
 	if !m.branch(m.tc.Cmp(OpULt, idx, n)) {
 		m.rtPanic(fr, "index out of range [%s] with length %s", idx, n)
 	}
+}
+
+// indexAddrT is indexAddr with the static type of the indexed operand, needed for typed
+// views over byte objects (pointer to an array of non-byte elements inside an arena).
+func (m *Machine) indexAddrT(fr *frame, xT types.Type, x Value, idx *Term, idxT types.Type) Value {
+	if bp, ok := x.(BytePtr); ok {
+		if pt, ok := xT.Underlying().(*types.Pointer); ok {
+			if at, ok := pt.Elem().Underlying().(*types.Array); ok && !isByteType(at.Elem()) {
+				i := m.idx64(idx, idxT)
+				m.boundsCheck(fr, i, Const(64, uint64(at.Len())), "array")
+				esz := uint64(m.p.sizes.Sizeof(at.Elem()))
+				return BytePtr{obj: bp.obj, off: m.tc.Bin(OpAdd, bp.off, m.tc.Bin(OpMul, i, Const(64, esz)))}
+			}
+		}
+	}
+	return m.indexAddr(fr, x, idx, idxT)
 }
 
 func (m *Machine) indexAddr(fr *frame, x Value, idx *Term, idxT types.Type) Value {
